@@ -690,7 +690,6 @@ func realReturnValues(ret *ssa.Return) []ssa.Value {
 	return out
 }
 
-
 // GoTargetName names what a go statement runs. "go func() { f(x) }()" whose
 // literal does nothing but that one call is the spelling "go f(x)" with the
 // arguments evaluated a little later; it is reported as a start of f.
